@@ -166,7 +166,15 @@ def _search_layout(here, out):
     m = re.search(r"FOUND index=(\d+) value=(.*?) clause=(.*)", p.stdout)
     if m:
         return {"cmd": ["ffi_replay", "layout-run", m.group(1)], "value": m.group(2), "clause": m.group(3)}, ""
-    return None, (p.stdout.strip()[-300:])
+    note = p.stdout.strip()[-300:]
+    # stateful calls inside the branches of an `if` (each program in a child process)
+    try:
+        p = subprocess.run([exe, "branch-state"], capture_output=True, text=True, timeout=900)
+    except subprocess.TimeoutExpired:
+        return None, note + "; branch-state timeout"
+    if p.stdout.strip().startswith("FAILS"):
+        return {"cmd": ["ffi_replay", "branch-state"], "value": "stateful calls inside if branches", "clause": p.stdout.strip()[6:]}, ""
+    return None, note + "; branch-state: " + p.stdout.strip()[-100:]
 
 
 def _search_cst(here, out):
